@@ -12,7 +12,7 @@ if os.path.isdir(out + "/demo"):
     shutil.copytree(out + "/demo", dst + "/demo", ignore=shutil.ignore_patterns("target", "Cargo.lock"))
 json.dump(dict(property=P, breaks=P, needs_to_manifest=needs,
                origin="independent sub-agent given only the property text and a scratch worktree",
-               confirmed="patch applies to /repo HEAD, library builds, the 65-test suite passes with it (sub-agent run, re-checked by tools/tryseed.sh applying it), demo fails with / passes without the change (sub-agent, both directions)",
+               confirmed=(open("/tmp/confirm-%s-%s.log" % (P, K)).read().strip().splitlines()[-1] + " [tools/confirmseed.sh run by the integrator in the scratch worktree: patch.diff applied to a clean HEAD, cargo test --workspace --no-fail-fast --offline, demo with / without the change]") if os.path.exists("/tmp/confirm-%s-%s.log" % (P, K)) else "sub-agent run only",
                ran="tools/tryseed.sh %s %s (git -C /repo apply patch.diff; ./check <prop> --tier quick; git -C /repo checkout -- .)" % (P, K),
                caught_by=caught.split(","), result=result), open(dst + "/meta.json", "w"), indent=1)
 subprocess.run(["git", "-C", "/repo", "worktree", "remove", "--force", "/tmp/seed-%s-%s" % (P, K)])
